@@ -33,8 +33,56 @@ type c18Nested struct {
 	M     map[string]string `yaml:"m"`
 }
 
+type c18Leaf struct {
+	V int `yaml:"v"`
+}
+
+// c18SharedLeaf is one pointer that several values of the process hold
+var c18SharedLeaf = &c18Leaf{V: 7}
+
+type c18Anchored struct {
+	Base *c18Leaf `yaml:"base,anchor=base"`
+	Copy *c18Leaf `yaml:"copy,alias"`
+}
+
+type c18Plain struct {
+	Leaf  *c18Leaf         `yaml:"leaf"`
+	Items []string         `yaml:"items"`
+	Tags  map[string][]int `yaml:"tags"`
+}
+
+// c18Disturb makes one unrelated MatchYAML call (its outcome does not matter): what OTHER tests of the same
+// process snapshot must not influence the text a Go value is marshalled to.
+func c18Disturb(dir, kind string) {
+	os.RemoveAll(dir)
+	os.MkdirAll(dir, 0o755)
+	t := &vfT{name: "TestOther"}
+	cfg := WithConfig(Dir(dir), Filename("other"))
+	switch kind {
+	case "unmarshalable-in-slice":
+		cfg.MatchYAML(t, struct {
+			H []any `yaml:"h"`
+		}{[]any{"ok", make(chan int)}})
+	case "unmarshalable-in-map":
+		cfg.MatchYAML(t, map[string]any{"a": map[string]any{"b": []any{[]any{func() {}}}}})
+	case "anchored-shared-pointer":
+		cfg.MatchYAML(t, c18Anchored{Base: c18SharedLeaf, Copy: c18SharedLeaf})
+	case "invalid-text":
+		cfg.MatchYAML(t, "a: [\n")
+	case "text-document":
+		cfg.MatchYAML(t, "- a\n- b:\n    - c\n")
+	case "deep-slices":
+		cfg.MatchYAML(t, [][][]int{{{1, 2}, {3}}, {{4}}})
+	}
+	t.end()
+}
+
+var c18Disturbances = []string{"unmarshalable-in-slice", "unmarshalable-in-map", "anchored-shared-pointer", "invalid-text", "text-document", "deep-slices"}
+
 func c18GoValue(name string) any {
 	switch name {
+	case "sharedptr":
+		return c18Plain{Leaf: c18SharedLeaf, Items: []string{"a", "b"}, Tags: map[string][]int{"x": {1, 2}, "y": {3}}}
 	case "map8":
 		return map[string]any{"h": 1, "g": "two", "f": 3.5, "e": true, "d": nil, "c": []int{1, 2}, "b": map[string]int{"z": 1, "y": 2, "x": 3}, "a": "---"}
 	case "struct":
@@ -85,7 +133,7 @@ func c18Gen(c *vfCtx, emit func(c18Case)) {
 		emit(c18Case{Kind: "text", Text: doc})
 		emit(c18Case{Kind: "text", Text: "# big\n---\n" + doc, Bytes: true})
 	}
-	for _, v := range []string{"map8", "struct", "slice"} {
+	for _, v := range []string{"map8", "struct", "slice", "sharedptr"} {
 		emit(c18Case{Kind: "govalue", Value: v})
 	}
 }
@@ -207,6 +255,21 @@ func c18GoValues(c *vfCtx, cs c18Case) {
 			return
 		}
 	}
+	// histories: every unrelated call (failing ones included) between two marshallings of the value, singly and in pairs
+	for _, d1 := range c18Disturbances {
+		for _, d2 := range append([]string{""}, c18Disturbances...) {
+			c18Disturb(filepath.Join(c.scratch, "gvo"), d1)
+			if d2 != "" {
+				c18Disturb(filepath.Join(c.scratch, "gvo"), d2)
+			}
+			s, err := c18StoredText(dir, cs.Value)
+			c.count("transitions", 3)
+			if err != nil || s != first {
+				c.violation("", fmt.Sprintf("Go value %s marshalled to a different text after unrelated MatchYAML call(s) %s %s in the same process: %q vs %q (%v)", cs.Value, d1, d2, vfClip(s), vfClip(first), err), cs)
+				return
+			}
+		}
+	}
 	// replay passes
 	vfResetState(false, "", true)
 	t := &vfT{name: "TestA"}
@@ -255,7 +318,7 @@ func init() {
 			return
 		}
 		c.rule = "every text of <=3 (quick) / <=4 (thorough) lines over a 14-line YAML alphabet (separators, document end, comments, block scalar with an indented ---, flow sequences that look like entry headers, the escape token, blank lines) x 4 endings x {string, []byte}; " +
-			"validity decided by the YAML library go-snaps uses; Go values marshalled 21x in one process and in 3 fresh processes"
+			"validity decided by the YAML library go-snaps uses; Go values (one sharing a pointer with an anchor-tagged value) marshalled 21x in one process, after every single/pair of 6 unrelated calls (failing ones included), and in 3 fresh processes"
 		c.assume("validity oracle is goccy/go-yaml itself (gopkg.in/yaml.v3 is not in go-snaps' module graph and cannot be imported by injected code)")
 		c18Gen(c, emit)
 	}, c18Run)
